@@ -18,6 +18,10 @@ BLOCK_PRIMS = {'nanosleep', 'pthread_join', 'pthread_cond_wait', 'fsync', 'write
 def run(ctx, sess):
     ctx.explanation = EXPL
     ctx.not_decided = NOT_DECIDED
+    ctx.rule('C07.10', 'no lock outlives a call: every lock of the threaded writer is released on every exit of the function that took it, also on error returns (shared with C06.3)')
+    from .common import relay
+    from . import c06 as _src_c06
+    relay(ctx, sess, _src_c06.run, {'C06.3': 'C07.10'})
     P, L = setup(sess)
     exc = exceptions('C07')
     ctx.rule('C07.1', 'flush ticket is published only after the file was synced: jls_wr_flush (which reaches fsync) dominates every store to flush_processed_id in the consumer')
